@@ -34,10 +34,10 @@ let lochex = function None -> "~" | Some l -> hex_of_bytes l
 
 let show_event (alen : int) (e : event) : string =
   match e with
-  | Ev (tid, i, msg, o, l, p) ->
+  | Ev (tid, i, msg, o, l, p, leaf) ->
     let pok = match p with Some (a, b) -> int_of_z a = int_of_z tid && int_of_z b = int_of_z i | None -> false in
-    Printf.sprintf "%d:%d@%d/%s/%s/%d" (int_of_z tid) (int_of_z i) (alen - List.length msg)
-      (z_to_string o) (lochex l) (if pok then 1 else 0)
+    Printf.sprintf "%d:%d@%d/%s/%s/%d/%s" (int_of_z tid) (int_of_z i) (alen - List.length msg)
+      (z_to_string o) (lochex l) (if pok then 1 else 0) (if leaf then "L" else "I")
   | EvDefault (tid, msg, o, l) ->
     Printf.sprintf "D%d@%d/%s/%s" (int_of_z tid) (alen - List.length msg) (z_to_string o) (lochex l)
   | EvError -> "ERR"
